@@ -294,6 +294,10 @@ def info_case(rng):
                                                                    p.ret([p.nil()])]))))
     ss.append(p.forin(["k"], [p.id("liter")], p.block([p.emit([p.str("in-loop"), p.id("k")]), p.local(["zz"], [p.id("k")]), p.emit([p.id("zz")])])))
     ss.append(p.emit([p.str("main"), p.field(p.call(_dbg(p, "getinfo"), [p.num(1), p.str("l")]), "currentline")]))
+    # the chunk itself is a function defined "on line 0", wherever its first statement is; seen from level 1 and from a callee
+    ss.append(p.emit([p.str("chunk-defined"), p.field(p.call(_dbg(p, "getinfo"), [p.num(1), p.str("S")]), "linedefined")]))
+    ss.append(p.localfunction("up", p.func([], p.block([p.emit([p.str("chunk-defined-from-callee"), p.field(p.call(_dbg(p, "getinfo"), [p.num(2), p.str("S")]), "linedefined")])]))))
+    ss.append(p.callstat(p.call(p.id("up"), [])))
     return p, p.block(ss)
 
 
@@ -365,4 +369,26 @@ def taillevel_case(ntail, query, rng, beyond=None):
         ss.append(p.callstat(p.call(p.id("outer"), [p.num(5 + ntail)])))
     elif beyond == "chunk-level": # the chunk's own level: the position of this call statement
         ss.append(p.callstat(p.call(p.id("outer"), [p.num(4 + ntail)])))
+    return p, p.block(ss)
+
+
+def forprep_case(which, bad, nbody, rng):
+    """a numeric for whose init / limit / step is not a number at run time and whose body spans several lines: the error
+    names the line of the loop header (the statement being executed), not a line of the body it never entered"""
+    p = Prog()
+    badv = {"table": lambda: p.table([]), "nil": lambda: p.nil(), "word": lambda: p.str("x"), "bool": lambda: p.true(), "func": lambda: p.id("emit")}[bad]
+    ss = [p.local(["lo", "hi", "st"], [p.num(1), p.num(3), p.num(1)]), p.emit([p.str("start")])]
+    for _ in range(rng.randint(0, 3)):
+        ss.append(p.local(["pre%d" % len(ss)], [p.num(len(ss))]))
+    ss.append(p.assign([p.id({"init": "lo", "limit": "hi", "step": "st"}[which])], [badv()]))
+    body = [p.emit([p.str("body"), p.id("i")])] + [p.local(["b%d" % k], [p.bin("+", p.id("i"), p.num(k))]) for k in range(nbody)] + [p.emit([p.str("body-end")])]
+    loop = p.fornum("i", p.id("lo"), p.id("hi"), p.id("st"), p.block(body))
+    where = rng.choice(["chunk", "function", "pcall"])
+    if where == "chunk":
+        ss.append(loop)
+    elif where == "function":
+        ss += [p.localfunction("run", p.func([], p.block([p.local(["pad"], [p.num(0)]), loop, p.emit([p.str("not-reached")])]))), p.callstat(p.call(p.id("run"), []))]
+    else:
+        ss.append(p.emit([p.str("caught"), p.call(p.id("pcall"), [p.func([], p.block([loop]))])]))
+        ss.append(p.emit([p.str("after")]))
     return p, p.block(ss)
